@@ -48,12 +48,13 @@ CHECKS["C03"] = dict(
 CHECKS["C05"] = dict(
     engine="raftmeta",
     technique="TLA+ spec RaftMeta.tla (abstract record + file-length/start-up rule layer; TLC: Durable, NoVoteRegress), "
-              "complete enumeration of short behaviours + TLC simulation replayed on FileStore on a mini node across "
-              "process restarts",
+              "complete enumeration of short behaviours + TLC simulation (plain and kind-first, SimRaftMeta.tla) replayed on "
+              "FileStore on a mini node across process restarts",
     text="TLC checks that the index-file design (one record rewritten in place, file never shrinks, start-up rule) keeps "
          "term/vote/membership/addresses across Reopen for every interleaving of the six writers; the pre-fix start-up "
          "rule (<= 20 bytes = new) is kept as a negative control that must fail. Every length-3 behaviour of a small "
-         "alphabet plus simulated longer ones are replayed on the real store; get_initial_state, "
+         "alphabet plus simulated longer ones (kind-first: real compactions and reopens as frequent as saves, sequences with a "
+         "membership / address change between two compactions first) are replayed on the real store; get_initial_state, "
          "get_membership_config and get_target_addr are compared after every step, reopen = new OS process.",
     note="clean stop only; the local node is never a member so the dormant Raft core writes nothing; "
          "rollover-driven catalogue rewrites are represented by first-file creation and compaction",
@@ -150,25 +151,35 @@ CHECKS["C09"] = dict(
     engine="configcenter",
     technique="TLA+ spec ConfigCenter.tla (store/listing/history semantics; TLC invariants on history, ListedIffCommitted), "
               "TLC-simulated publish/remove/import/echo behaviours replayed on a real ConfigActor with exhaustive page-window and filter sweeps "
-              "after every step",
+              "after every step; front-door leg: behaviours over the client-visible operations (SimConfigFront.tla) replayed through the real "
+              "HTTP routes and gRPC services of a single-member Raft node",
     text="The store semantics (last write wins, history one entry per content change bounded, import, remove) are "
          "model-checked; each generated behaviour is executed on the real actor and after every step every key's GET "
          "(content, md5 of the real content, type), its history in several windows and - per tenant and filter class - "
-         "EVERY (offset, limit) page window is compared with the slice of the spec's ordered listing.",
-    note="actor level (the HTTP/gRPC parameter parsing above it is exercised in thorough tier only); "
-         "tenant always given, as every API does",
+         "EVERY (offset, limit) page window is compared with the slice of the spec's ordered listing. Front door: the same "
+         "specification is replayed through /nacos/v1/cs/configs (POST/PUT/DELETE/GET, accurate and blur search with page "
+         "windows, the three spellings of the default namespace) and through ConfigPublish/Remove/QueryRequest over a real "
+         "tonic connection; status, body, content-md5 header, content type, listing totals and items are compared after "
+         "every step.",
+    note="front-door leg on a single-member Raft node with sequential calls (the cluster side is C06); history ids are not "
+         "visible through the open API and are compared at actor level only",
     design_ref="5 C09")
 CHECKS["C10"] = dict(
     engine="configcenter",
     technique="TLA+ spec ConfigCenter.tla with listeners (TLC: NoStaleWaiter, ChangeNotifiesSubscribers action properties, "
               "AnsweredByDeadline), TLC-simulated interleavings of listen/subscribe/publish/remove/tick replayed on a real "
-              "ConfigActor observing the long-poll receivers and the NotifyConfig hook events",
+              "ConfigActor observing the long-poll receivers and the NotifyConfig hook events; front-door leg: the same behaviours "
+              "through POST /cs/configs/listener (real long polls) and ConfigBatchListenRequest + the connection's bi-directional "
+              "stream (real ConfigChangeNotifyRequest pushes) of a single-member Raft node",
     text="TLC explores every interleaving (small constants) of registrations with held md5s, publishes, removes, "
          "time-outs, subscriptions and disconnects; a broken wake-up rule is kept as negative control. Generated "
          "behaviours run on the real actor: after every step each long poll must be answered with exactly the changed "
-         "keys or still be pending, as the spec says, and the emitted subscriber notifications must match.",
-    note="real-time deadlines with generous margins (see evidence assumptions); gRPC delivery below "
-         "Subscriber::notify is not observed in quick tier",
+         "keys or still be pending, as the spec says, and the emitted subscriber notifications must match. Front door: HTTP long "
+         "polls are real pending requests of the in-process application (answered at once / by a later publish or remove "
+         "made over HTTP or gRPC / by their time-out in one timed run), gRPC subscribers are real connections whose stream "
+         "must receive exactly one ConfigChangeNotifyRequest per change of a listened key, naming that key.",
+    note="real-time deadlines with generous margins (see evidence assumptions); front-door long polls use no wait or 30 s, "
+         "the expiry of a poll is one separate 10 s run",
     design_ref="5 C10")
 
 _REG = ("TLA+ spec Registry.tla (transcription of the incremental bookkeeping of NamingActor/Service; TLC: CountsMatch, "
@@ -182,12 +193,19 @@ CHECKS["C11"] = dict(
          "what the model predicts - and the dump is also compared with the spec state.",
     note="stand-alone actor (no process range, no Raft router); dump through a read-only hook", design_ref="5 C11")
 CHECKS["C12"] = dict(
-    engine="registry", technique=_REG + "; instance queries compared with the spec's QueryOf after every step",
+    engine="registry", technique=_REG + "; instance queries compared with the spec's QueryOf after every step; front-door leg: "
+              "behaviours over the client-visible operations with the handler-derived update tags and the replicated echo of "
+              "persistent instances (SimRegistryFront.tla) replayed through the real HTTP routes and gRPC connections of a node",
     text="Connection-biased behaviours (re-registration by another connection, HTTP over gRPC, deregistration with matching "
          "and foreign client ids, disconnects in any order) run on the real actor; QueryList (healthy-only or not) and "
          "QueryAllInstanceList must return exactly the spec's sets, returned instances carry the registered flags, and after "
-         "a disconnect exactly that connection's ephemeral instances are gone.",
-    note="actor level; the HTTP / gRPC handlers above NamingCmd are exercised in thorough tier only", design_ref="5 C12")
+         "a disconnect exactly that connection's ephemeral instances are gone. Front door: registrations, weight updates, beats "
+         "and deregistrations over /nacos/v1/ns/instance and over InstanceRequest on real tonic connections, connection "
+         "closes, and the Raft entries a node writes for persistent instances (RaftEchoUpdate / RaftEchoRemove; the "
+         "pre-fix removal of a re-registered address is a negative control); /instance/list and ServiceQueryRequest "
+         "(all / healthy only) must return exactly the spec's instances with their flags and weight after every step.",
+    note="front-door leg: single-member Raft node, sequential calls, no time passes inside a behaviour (expiry is C13), the TCP "
+         "probe of persistent instances is off", design_ref="5 C12")
 CHECKS["C13"] = dict(
     engine="registry", technique=_REG + " with a virtual clock (Service::time_check takes the thresholds) and with the real clock; "
               "timed observations of a real 3-node cluster evaluated by TLC against the requirements of ExpiryCluster.tla",
